@@ -3,6 +3,7 @@ package main
 import (
 	"flag"
 	"fmt"
+	"sync"
 	"time"
 
 	"github.com/mit-pdos/go-nfsd/nfstypes"
@@ -220,5 +221,85 @@ func cmdSimple(fs *flag.FlagSet, args []string) {
 				}
 			}
 		}
+	}
+}
+
+// cmdSimpleConc: concurrent requests on ONE file of the simple server (C17, linearizability).  Each
+// round runs 2-4 WRITE/SETATTR requests at the same time against the same inode and then reads the
+// file; the Lean driver demands that some order of the requests, applied by the model, yields every
+// reply and the final contents.
+func cmdSimpleConc(fs *flag.FlagSet, args []string) {
+	seed := fs.Uint64("seed", 1, "seed")
+	rounds := fs.Int("rounds", 300, "rounds")
+	fs.Parse(args)
+	r := NewRng(*seed)
+	d := NewSparseDisk(2000)
+	srv := simple.MakeNfs(d)
+	emit("sinit")
+	for rd := 0; rd < *rounds; rd++ {
+		ino := uint64(2 + r.Intn(3))
+		h := le64b(ino)
+		// size of the file now (the model tracks it; ask the server so that writes are mostly valid)
+		ga := srv.NFSPROC3_GETATTR(nfstypes.GETATTR3args{Object: mkfh3(h)})
+		cur := uint64(ga.Resok.Obj_attributes.Size)
+		emit("sgetattr %s => 0 %d %d %d", hx(h), ga.Resok.Obj_attributes.Ftype, ga.Resok.Obj_attributes.Size, ga.Resok.Obj_attributes.Fileid)
+		n := 2 + r.Intn(3)
+		descs := make([]string, n)
+		fns := make([]func() string, n)
+		for i := 0; i < n; i++ {
+			if r.Chance(3, 4) {
+				off := uint64(0)
+				if cur > 0 {
+					off = uint64(r.Intn(int(cur) + 1))
+				}
+				cnt := 1 + r.Intn(600)
+				if off+uint64(cnt) > 4096 {
+					cnt = int(4096 - off)
+				}
+				data := make([]byte, cnt)
+				for j := range data {
+					data[j] = byte(16*(i+1) + j%7)
+				}
+				descs[i] = fmt.Sprintf("swrite %s %d %d %s", hx(h), off, cnt, hx(data))
+				fns[i] = func() string {
+					rep := srv.NFSPROC3_WRITE(nfstypes.WRITE3args{File: mkfh3(h), Offset: nfstypes.Offset3(off), Count: nfstypes.Count3(cnt), Stable: nfstypes.FILE_SYNC, Data: data})
+					if rep.Status == 0 {
+						return fmt.Sprintf("0 %d", rep.Resok.Count)
+					}
+					return fmt.Sprintf("%d", rep.Status)
+				}
+			} else {
+				sz := uint64(r.Intn(4097))
+				var a nfstypes.SETATTR3args
+				a.Object = mkfh3(h)
+				a.New_attributes.Size = nfstypes.Set_size3{Set_it: true, Size: nfstypes.Size3(sz)}
+				descs[i] = fmt.Sprintf("ssetattr %s %d", hx(h), sz)
+				fns[i] = func() string { return fmt.Sprintf("%d", srv.NFSPROC3_SETATTR(a).Status) }
+			}
+		}
+		res := make([]string, n)
+		var wg sync.WaitGroup
+		start := make(chan bool)
+		for i := 0; i < n; i++ {
+			wg.Add(1)
+			go func(i int) {
+				defer wg.Done()
+				defer func() {
+					if x := recover(); x != nil {
+						res[i] = "panic"
+					}
+				}()
+				<-start
+				res[i] = fns[i]()
+			}(i)
+		}
+		close(start)
+		wg.Wait()
+		emit("sround-begin")
+		for i := 0; i < n; i++ {
+			emit("%s => %s", descs[i], res[i])
+		}
+		rdr := srv.NFSPROC3_READ(nfstypes.READ3args{File: mkfh3(h), Offset: 0, Count: 4096})
+		emit("sround-end sread %s 0 4096 => 0 %d %v %s", hx(h), rdr.Resok.Count, b01(rdr.Resok.Eof), hx(rdr.Resok.Data))
 	}
 }
